@@ -174,7 +174,15 @@ class Executor(object):
             c.loop_idx = list(st.loop_idx)
             c.asserts = []
             c.last_call = st.aux.get('last_call')
-            h.fn(c)
+            try:
+                h.fn(c)
+            except (KeyError, AttributeError, TypeError) as err:
+                # the code no longer has the shape the ghost code of this hook refers to (a renamed or
+                # removed temporary): the lemma steps are skipped, the obligations that needed them will
+                # simply not be discharged -- never a crash of the check
+                self.notes.append('ghost hook at %s (line %d) skipped: %s: %s'
+                                  % (h.target, getattr(node, 'lineno', 0), type(err).__name__, err))
+                continue
             for f in c.extra:
                 st.pc.append(f)
             # ghost lemma steps: proved here (small context), then available downstream
